@@ -16,6 +16,16 @@
 //   - runtime.Gosched() is injected at random;
 //   - ORACLE: each call must return exactly what the same call returns in a
 //     sequential run on fresh objects (canonical results of x/c11).
+//   - OPTION: a schema object is its text and the options it was created
+//     with.  jschema.KeysAreOptionalByDefault() belongs to ONE object; roots
+//     that share a type object may differ in it (a lenient root next to a
+//     strict one).  Every root of a round and every type spec of a round draws
+//     the option independently (optEnv); the oracle's fresh objects are created
+//     with the same bits.  KEYS rounds (keysRoundBase) take all roots from the
+//     keys family of x/c11 (pool_keys.go): one shared type text with unmarked
+//     keys, the documents lacking exactly one key: a strict root must turn
+//     them down with "required key" whatever the lenient roots over the same
+//     type object do meanwhile, a lenient root accepts those lacking its own.
 //
 // A second stream, "nested" (nested.go, its own child process), does the same
 // with random forests of user-type objects that OWN types themselves
@@ -147,19 +157,61 @@ type shared struct {
 	enums map[int]*enum.Enum
 }
 
-func newTypeObject(kind, spec int) interface{} {
+// optEnv: the option bits of the TYPE objects of a round.  A schema object is
+// its text and the options it was created with; KeysAreOptionalByDefault()
+// belongs to ONE object.  Every root of a round draws its own bit; every type
+// spec draws one bit per round (all objects of that spec in the round, shared
+// or private, and those of the sequential oracle, are created with it).
+type optEnv struct {
+	typeOpt map[int]bool // index into c11.Schemas -> created with KeysAreOptionalByDefault()
+}
+
+var noOpts = &optEnv{}
+
+func drawOptEnv(ro *rand.Rand, p float64) *optEnv {
+	e := &optEnv{typeOpt: map[int]bool{}}
+	for i, sp := range c11.Schemas {
+		if sp.IsType && ro.Float64() < p {
+			e.typeOpt[i] = true
+		}
+	}
+	return e
+}
+
+// key: the bits of the type specs reachable from spec (what the oracle of a root depends on).
+func (e *optEnv) key(spec c11.SchemaSpec) string {
+	seen := map[int]bool{}
+	var sb []string
+	var walk func(sp c11.SchemaSpec)
+	walk = func(sp c11.SchemaSpec) {
+		for _, tr := range sp.Types {
+			if tr.Kind != c11.KSchema || seen[tr.Spec] {
+				continue
+			}
+			seen[tr.Spec] = true
+			if e.typeOpt[tr.Spec] {
+				sb = append(sb, fmt.Sprint(tr.Spec))
+			}
+			walk(c11.Schemas[tr.Spec])
+		}
+	}
+	walk(spec)
+	return strings.Join(sb, ",")
+}
+
+func newTypeObject(kind, spec int, env *optEnv) interface{} {
 	if kind == c11.KRegex {
 		return regex.New("rx", c11.Regexes[spec])
 	}
-	s := jschema.New(c11.Schemas[spec].ID, c11.Schemas[spec].Text)
+	s := jschema.New(c11.Schemas[spec].ID, c11.Schemas[spec].Text, c11.SchemaOptions(env.typeOpt[spec])...)
 	// the type's own set-up (its rules and types are private fresh objects)
-	setup(s, c11.Schemas[spec], nil, 0, nil)
+	setup(s, c11.Schemas[spec], nil, 0, nil, env)
 	return s
 }
 
 // setup performs the spec's AddRule / AddType calls on s. sh == nil or
 // pShare == 0: every added object is fresh.  Returns the canonical results.
-func setup(s *jschema.Schema, spec c11.SchemaSpec, sh *shared, pShare float64, r *rand.Rand) []string {
+func setup(s *jschema.Schema, spec c11.SchemaSpec, sh *shared, pShare float64, r *rand.Rand, env *optEnv) []string {
 	var out []string
 	yield := func() {
 		if r != nil && r.Intn(2) == 0 {
@@ -185,7 +237,7 @@ func setup(s *jschema.Schema, spec c11.SchemaSpec, sh *shared, pShare float64, r
 		case sh != nil && r.Float64() < pShare && sh.types[[2]int{tr.Kind, tr.Spec}] != nil:
 			t = sh.types[[2]int{tr.Kind, tr.Spec}]
 		default:
-			t = newTypeObject(tr.Kind, tr.Spec)
+			t = newTypeObject(tr.Kind, tr.Spec, env)
 		}
 		yield()
 		out = append(out, vh.Recover(func() string { return c11.CanonErr(s.AddType(tr.Name, t.(root.Schema))) }))
@@ -213,26 +265,59 @@ type want struct {
 	ops   map[string]string
 }
 
+// specDocs: the documents a root of the spec is validated against: the pool's
+// base documents; for a root of the keys family (c11/pool_keys.go) its full
+// document, every document lacking one key of it, and a few others.
+func specDocs(spec c11.SchemaSpec) []string {
+	if !spec.Keys {
+		return c11.Docs
+	}
+	docs := []string{`{}`, `[]`, `{"item": {}}`, `{"a": 1,`}
+	for _, d := range c11.DocFit(spec.ID) {
+		docs = append(docs, c11.DocText(d))
+	}
+	return docs
+}
+
+// oracles: the sequential runs, computed on demand, one per (root spec, option
+// bit of the root, option bits of the type specs it reaches).
+type oracles struct {
+	mu sync.Mutex
+	m  map[string]want
+}
+
+func (o *oracles) of(ri int, rootOpt bool, env *optEnv) want {
+	k := fmt.Sprintf("%d/%v/%s", ri, rootOpt, env.key(c11.Schemas[ri]))
+	o.mu.Lock()
+	defer o.mu.Unlock()
+	w, ok := o.m[k]
+	if !ok {
+		w = oracle(c11.Schemas[ri], rootOpt, env)
+		o.m[k] = w
+	}
+	return w
+}
+
 // oracle: sequential run on fresh objects, one spec at a time.
-func oracle(spec c11.SchemaSpec) want {
-	s := jschema.New(spec.ID, spec.Text)
+func oracle(spec c11.SchemaSpec, rootOpt bool, env *optEnv) want {
+	s := jschema.New(spec.ID, spec.Text, c11.SchemaOptions(rootOpt)...)
 	w := want{ops: map[string]string{}}
-	w.setup = setup(s, spec, nil, 0, nil)
+	w.setup = setup(s, spec, nil, 0, nil, env)
 	for code := 0; code < nSchemaOps; code++ {
 		if code == opValidate {
 			continue
 		}
 		// each op on its own fresh object as well as in sequence must agree (C11); take the fresh one
-		f := jschema.New(spec.ID, spec.Text)
-		setup(f, spec, nil, 0, nil)
+		f := jschema.New(spec.ID, spec.Text, c11.SchemaOptions(rootOpt)...)
+		setup(f, spec, nil, 0, nil, env)
 		res, _, _ := observe(f, code, "")
 		w.ops[opKey(code, 0)] = res
 		if seq, _, _ := observe(s, code, ""); seq != res {
 			panic(fmt.Sprintf("c12 oracle: sequential run not history-independent for %s %s: %q vs %q", spec.ID, opKey(code, 0), seq, res))
 		}
 	}
-	for d := range c11.Docs {
-		res, _, _ := observe(s, opValidate, c11.Docs[d])
+	for d, text := range specDocs(spec) {
+		res, _, _ := observe(s, opValidate, text)
 		w.ops[opKey(opValidate, d)] = res
 	}
 	return w
@@ -274,8 +359,12 @@ type target struct {
 	firstCompile bool // the first call of every goroutine is one that compiles (Check / Validate / Example / GetAST)
 }
 
-func specTarget(spec c11.SchemaSpec, w want) target {
-	return target{id: spec.ID, text: spec.Text, setup: describeSetup(spec), docs: c11.Docs, w: w}
+func specTarget(spec c11.SchemaSpec, rootOpt bool, env *optEnv, w want) target {
+	setup := describeSetup(spec, env)
+	if rootOpt {
+		setup = "the root is created with jschema.KeysAreOptionalByDefault(); " + setup
+	}
+	return target{id: spec.ID, text: spec.Text, setup: setup, docs: specDocs(spec), w: w}
 }
 
 // hammer issues n random operations on s and compares with t.w.
@@ -326,7 +415,7 @@ func docText(code int, text string, doc int) string {
 	return fmt.Sprintf(" with doc%d = %q", doc, text)
 }
 
-func describeSetup(spec c11.SchemaSpec) string {
+func describeSetup(spec c11.SchemaSpec, env *optEnv) string {
 	var sb []string
 	for _, rr := range spec.Rules {
 		sb = append(sb, fmt.Sprintf("AddRule(%q, enum %q)", rr.Name, c11.Enums[rr.Enum]))
@@ -338,14 +427,49 @@ func describeSetup(spec c11.SchemaSpec) string {
 		case c11.KRegex:
 			sb = append(sb, fmt.Sprintf("AddType(%q, regex %q)", tr.Name, c11.Regexes[tr.Spec]))
 		default:
-			sb = append(sb, fmt.Sprintf("AddType(%q, schema %q)", tr.Name, c11.Schemas[tr.Spec].Text))
+			own := ""
+			if ts := c11.Schemas[tr.Spec]; len(ts.Types)+len(ts.Rules) > 0 {
+				own = " [the type's own set-up, fresh objects: " + describeSetup(ts, env) + "]"
+			}
+			sb = append(sb, fmt.Sprintf("AddType(%q, schema %q%s%s)", tr.Name, c11.Schemas[tr.Spec].Text, c11.OptText(env.typeOpt[tr.Spec]), own))
 		}
 	}
 	return strings.Join(sb, ", ")
 }
 
+// keysRoundBase: rounds with numbers >= keysRoundBase are KEYS rounds: the
+// shared root and the other roots are roots of the keys family of x/c11 over
+// ONE shared type text with unmarked keys (each root in one of the root forms),
+// each root created with KeysAreOptionalByDefault() with probability 1/2, each
+// type spec with 1/4; the documents are the root's full document and every
+// document lacking one key of it.  (In the other rounds every root and every
+// type spec draws the option with probability 1/5.)
+const keysRoundBase = 100000
+
+func isKeysRound(round int) bool { return round >= keysRoundBase }
+
+// mainRounds: rounds of the two number ranges per run of the main stream.
+func mainRounds() (plain, keys int) { return vh.Pick(300, 6000), vh.Pick(100, 2000) }
+
+func roundID(j int) int {
+	if plain, _ := mainRounds(); j >= plain {
+		return keysRoundBase + j - plain
+	}
+	return j
+}
+
+func pickKeySpecs(r *rand.Rand) (int, []int) {
+	groups := c11.KeyRootsSharing()
+	g := groups[r.Intn(len(groups))]
+	var others []int
+	for i, n := 0, 1+r.Intn(3); i < n; i++ {
+		others = append(others, g[r.Intn(len(g))])
+	}
+	return g[r.Intn(len(g))], others
+}
+
 // pickSpecs chooses the shared root and the other roots of a round.
-func pickSpecs(r *rand.Rand, known bool, wants map[int]want) (int, []int) {
+func pickSpecs(r *rand.Rand, known bool, checkOK func(int) bool) (int, []int) {
 	roots := c11.Roots()
 	var pool []int
 	for _, ri := range roots {
@@ -358,7 +482,7 @@ func pickSpecs(r *rand.Rand, known bool, wants map[int]want) (int, []int) {
 		pool = roots
 	}
 	s := pool[r.Intn(len(pool))]
-	if wants[s].ops["Check()"] != "ok" { // prefer roots that compile: draw once more
+	if !checkOK(s) { // prefer roots that compile: draw once more
 		s = pool[r.Intn(len(pool))]
 	}
 	var others []int
@@ -394,16 +518,40 @@ func pickSpecs(r *rand.Rand, known bool, wants map[int]want) (int, []int) {
 	return s, others
 }
 
-func runRound(col *collector, round int, known bool, wants map[int]want, rxWants map[int][]string) {
+func runRound(col *collector, round int, known bool, orc *oracles, rxWants map[int][]string) {
 	salt := int64(12000000)
 	if known {
 		salt = 12500000
 	}
 	r := vh.NewRand(salt + int64(round)*1000)
+	ro := vh.NewRand(salt + int64(round)*1000 + 500) // the option bits have a PRNG of their own
 	G := []int{2, 4, 8, 16, 32}[round%5]
-	sIdx, others := pickSpecs(r, known, wants)
+	var sIdx int
+	var others []int
+	pOptRoot, pOptType := 0.2, 0.2
+	if isKeysRound(round) {
+		sIdx, others = pickKeySpecs(r)
+		pOptRoot, pOptType = 0.5, 0.25
+	} else {
+		sIdx, others = pickSpecs(r, known, func(s int) bool { return orc.of(s, false, noOpts).ops["Check()"] == "ok" })
+	}
+	env := drawOptEnv(ro, pOptType)
+	sOpt := ro.Float64() < pOptRoot
+	otherOpt := make([]bool, len(others)*2) // one bit per concurrently built root
+	for j := range otherOpt {
+		otherOpt[j] = ro.Float64() < pOptRoot
+	}
 	spec := c11.Schemas[sIdx]
-	where := fmt.Sprintf("round %d (vh.NewRand(%d)), %d goroutines on shared root", round, salt+int64(round)*1000, G)
+	sWant := orc.of(sIdx, sOpt, env)
+	// the other roots belong to the scenario: what they do to the shared type objects is what the shared root must not see
+	var otherDesc []string
+	for j, oi := range others {
+		for k := j; k < len(otherOpt) && (k == j || G >= 8); k += len(others) {
+			otherDesc = append(otherDesc, fmt.Sprintf("%s = %q%s", c11.Schemas[oi].ID, c11.Schemas[oi].Text, c11.OptText(otherOpt[k])))
+		}
+	}
+	where := fmt.Sprintf("round %d (vh.NewRand(%d); option bits vh.NewRand(%d)), %d goroutines on shared root, roots built / compiled / used meanwhile over the same type and rule objects: %s", round,
+		salt+int64(round)*1000, salt+int64(round)*1000+500, G, strings.Join(otherDesc, "; "))
 
 	// shared objects of the round: one per (kind, spec) / enum used by any root of the round
 	sh := &shared{types: map[[2]int]interface{}{}, enums: map[int]*enum.Enum{}}
@@ -415,7 +563,7 @@ func runRound(col *collector, round int, known bool, wants map[int]want, rxWants
 		}
 		for _, tr := range sp.Types {
 			if tr.Kind != c11.KSelf && sh.types[[2]int{tr.Kind, tr.Spec}] == nil {
-				sh.types[[2]int{tr.Kind, tr.Spec}] = newTypeObject(tr.Kind, tr.Spec)
+				sh.types[[2]int{tr.Kind, tr.Spec}] = newTypeObject(tr.Kind, tr.Spec, env)
 				nShared++
 			}
 		}
@@ -437,10 +585,10 @@ func runRound(col *collector, round int, known bool, wants map[int]want, rxWants
 	rxObj := regex.New("rx", c11.Regexes[rxSpec])
 
 	// the shared root: all rules and types added BEFORE the goroutines start
-	S := jschema.New(spec.ID, spec.Text)
-	if got := setup(S, spec, sh, pShare(spec)*10, r); strings.Join(got, ",") != strings.Join(wants[sIdx].setup, ",") {
-		col.diff(vh.Diff{Component: "C12-result", Input: where + "; sequential set-up of " + spec.ID + ": " + describeSetup(spec),
-			Impl: strings.Join(got, ","), Model: strings.Join(wants[sIdx].setup, ",")})
+	S := jschema.New(spec.ID, spec.Text, c11.SchemaOptions(sOpt)...)
+	if got := setup(S, spec, sh, pShare(spec)*10, r, env); strings.Join(got, ",") != strings.Join(sWant.setup, ",") {
+		col.diff(vh.Diff{Component: "C12-result", Input: where + "; sequential set-up of " + spec.ID + ": " + describeSetup(spec, env),
+			Impl: strings.Join(got, ","), Model: strings.Join(sWant.setup, ",")})
 	}
 
 	var wg sync.WaitGroup
@@ -452,7 +600,7 @@ func runRound(col *collector, round int, known bool, wants map[int]want, rxWants
 		go func() {
 			defer wg.Done()
 			<-start
-			hammer(col, gr, S, specTarget(spec, wants[sIdx]), 6+gr.Intn(8), where, idents)
+			hammer(col, gr, S, specTarget(spec, sOpt, env, sWant), 6+gr.Intn(8), where, idents)
 		}()
 	}
 	// other roots: created, set up (sharing the type / rule objects), compiled and used concurrently
@@ -463,18 +611,21 @@ func runRound(col *collector, round int, known bool, wants map[int]want, rxWants
 	for j := 0; j < nOther; j++ {
 		wg.Add(1)
 		oi := others[j%len(others)]
+		oOpt := otherOpt[j]
+		oWant := orc.of(oi, oOpt, env)
 		gr := rand.New(rand.NewSource(r.Int63()))
 		go func() {
 			defer wg.Done()
 			<-start
 			osp := c11.Schemas[oi]
-			o := jschema.New(osp.ID, osp.Text)
-			ow := fmt.Sprintf("round %d, concurrently built root sharing type/rule objects with %s", round, spec.ID)
-			if got := setup(o, osp, sh, pShare(osp), gr); strings.Join(got, ",") != strings.Join(wants[oi].setup, ",") {
-				col.diff(vh.Diff{Component: "C12-result", Input: ow + "; set-up of " + osp.ID + ": " + describeSetup(osp),
-					Impl: strings.Join(got, ","), Model: "sequential run on fresh objects: " + strings.Join(wants[oi].setup, ",")})
+			o := jschema.New(osp.ID, osp.Text, c11.SchemaOptions(oOpt)...)
+			ow := fmt.Sprintf("round %d (option bits vh.NewRand(%d)), concurrently built root sharing type/rule objects with %s = %q%s (set-up %s) and with %s", round, salt+int64(round)*1000+500,
+				spec.ID, spec.Text, c11.OptText(sOpt), describeSetup(spec, env), strings.Join(otherDesc, "; "))
+			if got := setup(o, osp, sh, pShare(osp), gr, env); strings.Join(got, ",") != strings.Join(oWant.setup, ",") {
+				col.diff(vh.Diff{Component: "C12-result", Input: ow + "; set-up of " + osp.ID + ": " + describeSetup(osp, env),
+					Impl: strings.Join(got, ","), Model: "sequential run on fresh objects: " + strings.Join(oWant.setup, ",")})
 			}
-			hammer(col, gr, o, specTarget(osp, wants[oi]), 4+gr.Intn(6), ow, nil)
+			hammer(col, gr, o, specTarget(osp, oOpt, env, oWant), 4+gr.Intn(6), ow, nil)
 		}()
 	}
 	// goroutines on the shared regex objects
@@ -530,8 +681,8 @@ func runRound(col *collector, round int, known bool, wants map[int]want, rxWants
 	}
 
 	// "first use compiles exactly once": G goroutines released together, all call Check first
-	F := jschema.New(spec.ID, spec.Text)
-	setup(F, spec, nil, 0, nil)
+	F := jschema.New(spec.ID, spec.Text, c11.SchemaOptions(sOpt)...)
+	setup(F, spec, nil, 0, nil, env)
 	results := make([]string, G)
 	ids := make([][2]uintptr, G)
 	start2 := make(chan struct{})
@@ -548,10 +699,10 @@ func runRound(col *collector, round int, known bool, wants map[int]want, rxWants
 	}
 	close(start2)
 	wg.Wait()
-	wantFirst := wants[sIdx].ops[opKey(opCheck, 0)] + " / " + wants[sIdx].ops[opKey(opAST, 0)]
+	wantFirst := sWant.ops[opKey(opCheck, 0)] + " / " + sWant.ops[opKey(opAST, 0)]
 	for g := range results {
 		if results[g] != wantFirst || ids[g] != ids[0] {
-			col.diff(vh.Diff{Component: "C12-once", Input: fmt.Sprintf("round %d; %d goroutines race to the first Check() of fresh %s = %q (set-up %s)", round, G, spec.ID, spec.Text, describeSetup(spec)),
+			col.diff(vh.Diff{Component: "C12-once", Input: fmt.Sprintf("round %d; %d goroutines race to the first Check() of fresh %s = %q%s (set-up %s)", round, G, spec.ID, spec.Text, c11.OptText(sOpt), describeSetup(spec, env)),
 				Impl:  fmt.Sprintf("goroutine %d: %s (AST object %x; goroutine 0 saw %x)", g, results[g], ids[g], ids[0]),
 				Model: "every goroutine: " + wantFirst + ", one compiled object"})
 			break
@@ -559,11 +710,33 @@ func runRound(col *collector, round int, known bool, wants map[int]want, rxWants
 	}
 
 	key := fmt.Sprintf("round %d G=%d shared=%s others=%v sharedObjects=%d", round, G, spec.ID, specIDs(others), nShared)
+	// option statistics: a strict shared root next to a lenient root that was given one of its type objects (and the reverse)
+	mixed := false
+	for j := 0; j < nOther; j++ {
+		if otherOpt[j] != sOpt && pShare(spec) > 0 && pShare(c11.Schemas[others[j%len(others)]]) > 0 {
+			for _, a := range spec.Types {
+				for _, b := range c11.Schemas[others[j%len(others)]].Types {
+					if a.Kind == c11.KSchema && b.Kind == c11.KSchema && a.Spec == b.Spec {
+						mixed = true
+					}
+				}
+			}
+		}
+	}
 	col.mu.Lock()
-	col.res.Case(key, len(spec.Types)+len(spec.Rules) > 0 || wants[sIdx].ops["Check()"] == "ok")
+	col.res.Case(key, len(spec.Types)+len(spec.Rules) > 0 || sWant.ops["Check()"] == "ok")
 	col.res.Stats[fmt.Sprintf("G_%02d", G)]++
-	col.res.Stats["shared_root_"+wants[sIdx].ops["Check()"]]++
+	col.res.Stats["shared_root_"+sWant.ops["Check()"]]++
 	col.res.Stats[fmt.Sprintf("shared_objects_%d", nShared)]++
+	if isKeysRound(round) {
+		col.res.Stats["keys_rounds"]++
+	}
+	if sOpt {
+		col.res.Stats["opt_shared_root_created_with_KeysAreOptionalByDefault"]++
+	}
+	if mixed {
+		col.res.Stats["opt_strict_and_lenient_root_over_one_type_object"]++
+	}
 	col.mu.Unlock()
 }
 
@@ -601,15 +774,13 @@ func child(stream string, onlyRound, repeat int) {
 		col.mu.Unlock()
 		return
 	}
-	wants := map[int]want{}
-	for _, ri := range c11.Roots() {
-		wants[ri] = oracle(c11.Schemas[ri])
-	}
+	orc := &oracles{m: map[string]want{}}
 	rxWants := map[int][]string{}
 	for i := range c11.Regexes {
 		rxWants[i] = regexOracle(i)
 	}
-	rounds := vh.Pick(300, 6000)
+	plainRounds, keysRounds := mainRounds()
+	rounds := plainRounds + keysRounds
 	if known {
 		rounds = vh.Pick(40, 400)
 	}
@@ -634,10 +805,13 @@ func child(stream string, onlyRound, repeat int) {
 				if round >= rounds {
 					return
 				}
+				if !known {
+					round = roundID(round)
+				}
 				done := make(chan struct{})
 				go func() {
 					defer close(done)
-					runRound(col, round, known, wants, rxWants)
+					runRound(col, round, known, orc, rxWants)
 				}()
 				select {
 				case <-done:
@@ -762,11 +936,17 @@ func Run(args []string) {
 			"G in {2,4,8,16,32} goroutines issue 6..13 random Check/Validate(own doc)/Len/Example/GetAST/UsedUserTypes calls on it (racing to its "+
 			"first compile) while 1..6 goroutines build, compile and use other roots that add the SAME type and rule objects, and 2..6 goroutines "+
 			"call Example/Pattern/Len/Check on shared regex objects; random Gosched; every result compared with a sequential run on fresh objects; "+
-			"plus G goroutines racing to the first Check of a fresh schema; child process under the race detector. Non-trivial = the shared root "+
+			"plus G goroutines racing to the first Check of a fresh schema; child process under the race detector. OPTION: every root and every type "+
+			"spec of a round draws jschema.KeysAreOptionalByDefault() independently (probability 1/5; PRNG of its own), the oracle's fresh objects "+
+			"likewise; plus KEYS rounds (numbers 100000+k, one per three other rounds): shared root and other roots from the keys family of x/c11 ("+
+			"8 shared type texts with UNMARKED keys x 5 root forms) over ONE type object, roots lenient with probability 1/2, type objects 1/4, "+
+			"documents = the root's full document and every document lacking exactly one key of it at any depth. Non-trivial = the shared root "+
 			"has added types/rules or passes Check. Stream nested (second child): random forests of user-type objects that own types themselves "+
 			"(T.AddType(U), U.AddType(V): chains of depth 0..3, 1..2 owned types each, some owned twice; or rule-sets, or / key shortcuts, type / "+
 			"enum rules, additionalProperties, self references; no allOf), built once and added to 2..6 roots that are set up, compiled for the "+
-			"first time and used by 1..4 goroutines each (2..24 per round), 3 rounds at a time; oracle = each root over fresh objects, sequentially; "+
+			"first time and used by 1..4 goroutines each (2..24 per round), 3 rounds at a time; every root (1/3) and every type object (1/6) created "+
+			"with KeysAreOptionalByDefault() independently; documents: example of the sequential run, 4 random mutations, up to 6 copies of it "+
+			"lacking exactly one key (any depth); oracle = each root over fresh objects, sequentially; "+
 			"race reports are attributed to rounds by stderr marks and confirmed by replaying the round alone. Non-trivial there = an object "+
 			"shared by >= 2 roots owns a type that owns (named or anonymous) types and >= 2 roots pass Check. Stream broken (third child): the "+
 			"rounds of stream nested over 1..2 BIG flat type objects (object / array texts of 12..240 members: a random unit of 1..4 member lines "+
